@@ -53,6 +53,8 @@ class Ctx:
         self.distinct = set()
         self.dropped = {}
         self.exhaustive = {}
+        self.action_cov = {}      # "Module.Def" -> {action name: times taken} over the TLC runs instrumented with -coverage
+        self.cov_runs = 0
         self.findings = load_findings(prop)
         # runs against a scratch copy of the repository (bin/seedtool: VERIF_REPO) keep their replay files and evidence out of /verif
         self.out_root = os.environ.get("VERIF_OUT") or VERIF
@@ -107,7 +109,7 @@ class Ctx:
 
     # ---- TLC ---------------------------------------------------------------------------------
     def tlc(self, module, cfg=None, workdir=None, files=(), timeout=1800, workers=16, extra=(), constants=None,
-            simulate=None, count=True):
+            simulate=None, count=True, cover=()):
         """Runs TLC on spec/<module>.tla in a scratch copy of spec/.  Returns (printed JSON values, stats)."""
         wd = workdir or self.sub("tlc-%d" % len(self.tlc_runs))
         for f in os.listdir(SPEC):
@@ -130,6 +132,12 @@ class Ctx:
                "-workers", str(workers), "-metadir", meta, "-config", cfgname]
         if simulate:
             cmd += ["-simulate", simulate]
+        # action coverage (vacuity guard): which rules of the machine did this conformance run exercise?  Always in the thorough tier; in the
+        # quick tier only for small inputs (-coverage costs about half of TLC's time again) or on request (VERIF_COVER=1)
+        instrument = bool(cover) and (self.tier == "thorough" or os.environ.get("VERIF_COVER") == "1" or
+                                      sum(os.path.getsize(os.path.join(wd, name)) for _, name in files) < 1500000)
+        if instrument:
+            cmd += ["-coverage", "1"]
         cmd += list(extra) + [module + ".tla"]
         t = time.time()
         outp = os.path.join(wd, "tlc.out")
@@ -158,6 +166,14 @@ class Ctx:
         if not ok:
             tail = "\n".join(l for l in text.splitlines() if not l.startswith('"{'))[-6000:]
             raise Infra("TLC run of %s did not complete cleanly (exit %d):\n%s" % (module, r.returncode, tail))
+        if instrument:
+            import tlccov
+            for cmod, cdef in cover:
+                src = open(os.path.join(SPEC, cmod + ".tla")).read().splitlines()
+                acc = self.action_cov.setdefault(cmod + "." + cdef, {})
+                for a, n in tlccov.action_counts(text, cmod, src, cdef).items():
+                    acc[a] = acc.get(a, 0) + n
+            self.cov_runs += 1
         if count:
             self.states += st.get("distinct", 0)
             self.transitions += st.get("generated", 0)
@@ -222,6 +238,10 @@ class Ctx:
             "exhaustive": bool(self.exhaustive) and all(self.exhaustive.values()),
             "known_findings_hit": {k: len(v) for k, v in seen.items()},
         }
+        if self.action_cov:
+            cov["spec_actions_taken"] = self.action_cov
+            cov["spec_actions_never_taken"] = sorted(k + ":" + a for k, d in self.action_cov.items() for a, n in d.items() if n == 0)
+            cov["tlc_runs_with_action_coverage"] = self.cov_runs
         if extra:
             cov.update(extra)
         ev = {"property_id": self.prop, "tier": self.tier, "seed": self.seed, "level": level, "coverage": cov,
@@ -234,6 +254,15 @@ class Ctx:
         log("%s %s: %d evaluations, %d states, %d traces validated, %d known, %d violations, %.0fs" % (
             self.prop, self.tier, self.evaluations, self.states, self.traces_validated, len(self.known),
             len(self.violations), time.time() - self.t0))
+        # vacuity: in the thorough tier every rule of the machine that this property is about must have been exercised by a validated run
+        if self.tier == "thorough" and not self.violations:
+            for key, acts in MUST_COVER.get(self.prop, {}).items():
+                got = self.action_cov.get(key)
+                if got is None:
+                    raise Infra("no TLC run of %s was instrumented with -coverage for %s" % (self.prop, key))
+                never = [a for a in acts if got.get(a, 0) == 0]
+                if never:
+                    raise Infra("vacuous conformance run: actions of %s never taken in %s thorough: %s" % (key, self.prop, ", ".join(never)))
         # coverage floor: a run that validated far fewer traces than this check does on the unchanged tree has gone (partly) blind - cases
         # dropped as rejected / unsupported / undefined instead of compared. That is not a verdict (exit 2), never a silent pass.
         if not self.violations:
@@ -242,6 +271,29 @@ class Ctx:
                 raise Infra("%s %s validated %d traces, fewer than the floor of %d recorded for the unchanged tree (lib/floors.json): dropped = %r"
                             % (self.prop, self.tier, self.traces_validated, fl, self.dropped))
         return 1 if self.violations else 0
+
+
+_SCALAR = ["BlockNext", "StmtDefineAssign", "Store", "StmtDesugar", "IfEvalAllConds", "IfDispatch", "SwitchDesugar", "SwitchEnd", "ForInit", "LoopHead",
+           "LoopCond", "Break", "Continue", "StmtPrint", "PrintEmit", "ExprLeaf", "ExprPushOperands", "ApplyPure"]
+_CALLS = ["StmtFunc", "StmtReturn", "Return", "CallExit", "CallEnter", "StmtExpr", "ExprDrop"]
+_SLICES = ["StmtSetIdx", "SetIdxApply", "RangeDesugar", "ApplyLen", "ApplyIndex", "ApplySubstr", "SliceNew", "ApplyCopy"]
+_EMIT = ["Simple", "ForStart", "Passive", "Break", "Continue", "ForEnd", "IfStart", "ElseX", "IfEnd", "FuncStart", "Return", "FuncEnd", "Panic", "ProgramEnd"]
+_LEX = ["LexBlank", "LexNewline", "LexLineComment", "LexBlockComment", "LexString", "LexRaw", "LexNumber", "LexWord", "LexPunct", "LexError"]
+# the rules of the specification each property is about: all of them must be taken by validated runs of the thorough tier
+MUST_COVER = {
+    "C01": {"TshDyn.Step": _SCALAR + ["StmtPanic", "PanicExit"]},
+    "C02": {"TshDyn.Step": _SCALAR + _CALLS},
+    "C03": {"TshDyn.Step": _SCALAR + _CALLS + _SLICES},
+    "C04": {"TshDyn.Step": _SCALAR + _CALLS + _SLICES + ["StmtWrite", "WriteFile", "ApplyExists", "ApplyRead", "ApplyAppCall"]},
+    "C05": {"TshDyn.Step": _SCALAR + _CALLS + _SLICES},
+    "C08": {"TshDyn.Step": _SCALAR + _CALLS + _SLICES + ["StmtWrite", "WriteFile", "ApplyRead", "ApplyInput", "ApplyAppCall"]},
+    "C09": {"TshDyn.Step": _SCALAR + _CALLS},
+    "C10": {"TshDyn.Step": _SCALAR + _CALLS + _SLICES},
+    "C11": {"Lexer.Step": _LEX},
+    "C16": {"Emit.Event": _EMIT},
+    "C17": {"TshDyn.Step": ["StmtWrite", "WriteFile", "ApplyExists", "ApplyRead", "CallEnter", "IfDispatch"]},
+    "C18": {"TshDyn.Step": ["ApplyAppCall", "CallEnter", "StmtExpr", "ExprDrop", "StmtDefineAssign"]},
+}
 
 
 def load_floors():
